@@ -1,5 +1,11 @@
-import Vet.Props.C03Topo
+import Vet.Props.C03
+#print axioms Vet.C03_demand
 #print axioms Vet.C03_depgraph_total
 #print axioms Vet.C03_topo_valid
 #print axioms Vet.C03_third_party
 #print axioms Vet.C03_root_iff
+#print axioms Vet.C03_requirements_solve
+#print axioms Vet.C03_unlisted_empty
+#print axioms Vet.C03_demand_unique
+#print axioms Vet.C03_least
+#print axioms Vet.C03_requirements_length
